@@ -109,6 +109,75 @@ LONG = [
 ]
 
 
+def _sqn(f, r):
+    return r * 8 + f
+
+
+def _fen_from(board, side, rights):
+    rows = []
+    for r in range(7, -1, -1):
+        row, e = "", 0
+        for f in range(8):
+            pc = board.get(_sqn(f, r))
+            if pc:
+                row += (str(e) if e else "") + pc
+                e = 0
+            else:
+                e += 1
+        rows.append(row + (str(e) if e else ""))
+    return "/".join(rows) + " %s %s - 0 1" % (side, rights)
+
+
+def castling_matrix():
+    """every castling move against every kind of attacker on every square that matters: the king's square, the squares it
+    crosses and lands on, and the b-file square (which only has to be empty). Deterministic; the rules decide what is legal."""
+    out = []
+    steps = {"N": [(1, 2), (2, 1), (-1, 2), (-2, 1), (1, -2), (2, -1), (-1, -2), (-2, -1)],
+             "K": [(1, 0), (-1, 0), (0, 1), (0, -1), (1, 1), (1, -1), (-1, 1), (-1, -1)]}
+    rays = {"R": [(1, 0), (-1, 0), (0, 1), (0, -1)], "B": [(1, 1), (1, -1), (-1, 1), (-1, -1)]}
+    rays["Q"] = rays["R"] + rays["B"]
+    for side in "wb":
+        home = 0 if side == "w" else 7
+        up = 1 if side == "w" else -1            # direction towards the enemy
+        own = (lambda c: c.upper()) if side == "w" else (lambda c: c.lower())
+        foe = (lambda c: c.lower()) if side == "w" else (lambda c: c.upper())
+        for wing, rook_f, right in (("k", 7, "K"), ("q", 0, "Q")):
+            base = {_sqn(4, home): own("k"), _sqn(rook_f, home): own("r")}
+            rights = right if side == "w" else right.lower()
+            targets = [4, 5, 6] if wing == "k" else [1, 2, 3, 4]
+            for tf in targets:
+                t = (tf, home)
+                for kind in "KQRBNP":
+                    froms = []
+                    if kind in steps:
+                        froms = [(t[0] + dx, t[1] + dy) for dx, dy in steps[kind]]
+                    elif kind in rays:
+                        for dx, dy in rays[kind]:
+                            for n in (1, 2, 3, 5):
+                                froms.append((t[0] + dx * n, t[1] + dy * n))
+                    else:
+                        froms = [(t[0] - 1, home + up), (t[0] + 1, home + up)]
+                    n_used = 0
+                    for (f, r) in froms:
+                        if not (0 <= f < 8 and 0 <= r < 8) or r == home:
+                            continue
+                        b = dict(base)
+                        if _sqn(f, r) in b:
+                            continue
+                        b[_sqn(f, r)] = foe(kind.lower())
+                        if kind != "K":
+                            # the enemy king far away from everything
+                            ksq = _sqn(7 if wing == "q" else 0, 7 - home if True else 0)
+                            if ksq in b:
+                                continue
+                            b[ksq] = foe("k")
+                        out.append(_fen_from(b, side, rights))
+                        n_used += 1
+                        if n_used >= 3:
+                            break
+    return out
+
+
 def playout_script(tier, seed, skip=()):
     rng = Rng(seed)
     ngames = 96 if tier == "quick" else 1600
@@ -133,6 +202,8 @@ def playout_script(tier, seed, skip=()):
         for m in moves:
             lines += ["hist " + m, "obs", "gend", "dump", "pp", "imp", "show", "pgn"]
         blocks.append(lines)
+    for ci, root in enumerate(castling_matrix()):
+        blocks.append(["# c%d" % ci, "new " + root, "obs", "gend", "dump", "imp"])
     for li, (root, cyc, n) in enumerate(LONG):
         lines = ["# l%d" % li, "new " + root, "obs", "gend", "dump"]
         for k in range(n):
